@@ -146,6 +146,15 @@ def run_unit(unit, out, tier, seed):
     a_, b_ = atoms_[0], atoms_[1]
     pats = [(), (a_,), (_syn.neg(a_),), (a_, b_), (a_, _syn.neg(b_)), (_syn.neg(a_), b_), (_syn.neg(a_), _syn.neg(b_))]
     args += [(p_, n_) for n_ in negs for p_ in pats] + [((n_,), a_) for n_ in negs]
+    # negation towers beside a literal, in both arrival orders (closure rules only look at the arriving node)
+    def tower(k, x):
+        for _ in range(k):
+            x = _syn.neg(x)
+        return x
+    for k in (2, 3, 4, 5):
+        for lit in (a_, _syn.neg(a_)):
+            args += [((lit, tower(k, a_)), b_), ((tower(k, a_), lit), b_), ((lit,), tower(k, a_)), ((tower(k, a_),), lit),
+                     ((lit, _syn.op('Disjunction', tower(k, a_), b_)), b_)]
     for arg in args:
         cfgs = combos if tier == 'thorough' else [combos[(n + seed) % 4]]
         for cfg in cfgs:
